@@ -455,6 +455,16 @@ class Gen:
         items = []
         n = r.choice([1, 2, 2, 3, 3, 4, 5])
         prev_ref = False
+        if r.random() < 0.15:
+            # the same variable referenced several times with different second segments: each reference has its own value
+            stk = r.choice(["stk1", "stk2"])
+            subs = r.sample(["0", "1", "length", "2"], r.choice([2, 3]))
+            for j, sub in enumerate(subs):
+                if j:
+                    items.append(L.t_text(r.choice([" ", ",", " / ", ";"])))
+                items.append(L.t_ref("variables", stk, sub))
+            items.append(L.t_text(r.choice([" |", ";", " "])))
+            n = r.choice([0, 1, 2])
         for _ in range(n):
             if r.random() < 0.5:
                 if prev_ref and r.random() < 0.9:
